@@ -699,6 +699,9 @@ pub fn space(tier: Tier, id: &str) -> Option<Box<dyn Space>> {
     if let Some(r) = reversed_of(id, |base| space(tier, base)) {
         return r;
     }
+    if let Some(r) = concurrent_of(id, |base| space(tier, base)) {
+        return r;
+    }
     match id {
         "columns" => Some(Box::new(Cols)),
         "grid" => Some(Box::new(Grid { thorough: tier == Tier::Thorough })),
@@ -714,7 +717,7 @@ fn replay(tier: Tier, case: &Value) -> Vec<Violation> {
 }
 
 fn run(ctx: &Ctx) -> i32 {
-    let ids = ["columns", "grid", "ranges", "addresses", "reuse", "columns~rev", "grid~rev", "ranges~rev", "addresses~rev"];
+    let ids = ["columns", "grid", "ranges", "addresses", "reuse", "columns~rev", "grid~rev", "ranges~rev", "addresses~rev", "ranges~par", "addresses~par", "reuse~par"];
     let spaces = ids.iter().map(|id| (*id, space(ctx.tier, id).unwrap())).collect();
     let thorough = ctx.tier == Tier::Thorough;
     run_e1(
